@@ -6,6 +6,7 @@ import (
 	"strconv"
 
 	"github.com/graphql-go/graphql/language/ast"
+	"github.com/graphql-go/graphql/language/printer"
 )
 
 // normalizeDocument walks the given operation in `doc`, replacing
@@ -355,6 +356,11 @@ type normCtx struct {
 	counter    int
 	synthArgs  map[string]interface{}
 	newVarDefs []*ast.VariableDefinition
+
+	// byLiteral maps (declared type, literal text) to the variable already
+	// synthesized for it: equal literals must stay equal arguments, or
+	// fields that merged before normalization would conflict after it.
+	byLiteral map[string]string
 }
 
 func (c *normCtx) nextName() string {
@@ -459,7 +465,15 @@ func (c *normCtx) tryExtract(value ast.Value, expected Input) (ast.Value, bool) 
 		// downstream error against the original literal.
 		return value, false
 	}
+	literalKey := fmt.Sprintf("%v\x00%v", expected, printer.Print(value))
+	if name, ok := c.byLiteral[literalKey]; ok {
+		return ast.NewVariable(&ast.Variable{Name: ast.NewName(&ast.Name{Value: name})}), true
+	}
 	name := c.nextName()
+	if c.byLiteral == nil {
+		c.byLiteral = map[string]string{}
+	}
+	c.byLiteral[literalKey] = name
 	// The variable carries what a client would have sent for this literal
 	// (enum values by name, not by internal value): it is coerced against
 	// the declared type again when the plan is executed.
